@@ -50,9 +50,10 @@ type wgState struct {
 
 // SelCase is one case of a select statement.
 type SelCase struct {
-	send bool
-	ch   *chanState
-	val  interface{}
+	send   bool
+	ch     *chanState
+	val    interface{}
+	native reflect.SelectCase // used when not running under the scheduler
 }
 
 type op struct {
